@@ -8,6 +8,7 @@ def showEv : Ev → String
   | .recv t => s!"r{t}"
   | .rel t => s!"l{t}"
   | .err t => s!"e{t}"
+  | .abort t => s!"x{t}"
 
 def showX : XEv → String
   | .creat p true => s!"c{p}+"
@@ -24,6 +25,7 @@ def showX : XEv → String
   | .pwrite p t c => s!"W{p}.{t}={c}"
   | .pwriteNone p t => s!"W{p}.{t}!"
   | .unlock p t => s!"U{p}.{t}"
+  | .abort p t => s!"X{p}.{t}"
 
 /-- who is inside after these events -/
 def holderAfter (h : Option Nat) : List Ev → Option Nat
@@ -40,14 +42,16 @@ def phase : Nat → St → List Nat → List Ev → St × List Ev
   | fuel + 1, s, t :: q, acc =>
     let (s', evs) := step s t
     let q' := if !s.woken && s'.woken then q ++ (s'.waiters.head?).toList else q
-    phase fuel s' q' (acc ++ evs)
+    -- the exception that abandons a request runs on through `__aexit__` without suspending: the release follows at once
+    let q'' := if evs.any (fun e => match e with | .abort _ => true | _ => false) then t :: q' else q'
+    phase fuel s' q'' (acc ++ evs)
 
-def inproc (tasks : List (List Nat)) (sched : List (List Nat)) : String :=
+def inproc (tasks : List (List Sec)) (sched : List (List Nat)) : String :=
   let rec go (s : St) (h : Option Nat) (all : List Ev) : List (List Nat) → List String → List String × List Ev
-    | [], out => (out, all)
+    | [], out => (out ++ [s!"k{s.counter}"], all)
     | b :: bs, out =>
       let b' := b.filter fun t => !(s.waiters.contains t)
-      let (s', evs) := phase (2 * b.length + 4) s b' []
+      let (s', evs) := phase (3 * b.length + 4) s b' []
       let h' := holderAfter h evs
       let own := match h' with | some t => s!"/{t}" | none => "/-"
       let lk := if s'.locked then "L" else "U"
@@ -60,7 +64,10 @@ result in a step resumes (takes the task lock) before the process answers, exact
 def crossRun (s : XSt) : List (Nat × Nat) → List XEv → XSt × List XEv
   | [], acc => (s, acc)
   | (p, t) :: rest, acc =>
-    let (s1, e1) := stepX s (p, t)
+    let (s0, e0) := stepX s (p, t)
+    -- the exception that abandons a request runs on into `__aexit__`: its pwrite belongs to the same step of the process
+    let (s1, e1) := if e0.any (fun e => match e with | .abort _ _ => true | _ => false)
+      then (let (sa, ea) := stepX s0 (p, t); (sa, e0 ++ ea)) else (s0, e0)
     let (s2, e2) :=
       if !(s.procs p).twoken && (s1.procs p).twoken then
         match (s1.procs p).twaiters.head? with
@@ -69,7 +76,7 @@ def crossRun (s : XSt) : List (Nat × Nat) → List XEv → XSt × List XEv
       else (s1, [])
     crossRun s2 rest (acc ++ e1 ++ e2)
 
-def cross (size off : Nat) (file : Option (List Nat)) (tasks : List (List (List Nat))) (sched : List (Nat × Nat)) : String :=
+def cross (size off : Nat) (file : Option (List Nat)) (tasks : List (List (List Sec))) (sched : List (Nat × Nat)) : String :=
   let (s, evs) := crossRun (initX size off file tasks) sched []
   let own := match s.file.owner with | some p => s!"{p}" | none => "-"
   let pres := if s.file.present then "1" else "0"
@@ -77,6 +84,54 @@ def cross (size off : Nat) (file : Option (List Nat)) (tasks : List (List (List 
     ++ " # " ++ (if checkX xchk0 evs then "ok" else "bad")
 
 def natList (j : Json) : Option (List Nat) := do (← jArr j).mapM jNat
+
+/-- a block: `n` (complete exchanges, left normally) or `[n, cut, …]` (cut ≠ 0: one more request, then the exception) -/
+def jSec (j : Json) : Option Sec :=
+  match jNat j with
+  | some n => some { n := n, cut := false }
+  | none => do
+    match ← jArr j with
+    | n :: c :: _ => pure { n := ← jNat n, cut := (← jNat c) != 0 }
+    | _ => none
+
+def secList (j : Json) : Option (List Sec) := do (← jArr j).mapM jSec
+
+/-- a `hist` case: phases, each with an owner (a process = one lock object) and tasks with their blocks.  Every
+(phase, task) becomes a task of its own of the owner's process; the phases run one after the other, the tasks of a
+phase round-robin until all are done.  Printed: the counters of the messages on the bus, and what the lock keeps for
+the next user (the `MailboxLock`'s counter / the terminal's byte in the lock file). -/
+def hist (j : Json) : Option String := do
+  let lock ← fStr j "lock"
+  let phases ← (← fArr j "phases").mapM fun ph => do
+    let owner ← fNat ph "owner"
+    let tasks ← (← fArr ph "tasks").mapM secList
+    pure (owner, tasks)
+  let nown := (phases.map (·.1)).foldl max 0 + 1
+  -- task ids: position in the list of all (phase, task) pairs of that owner
+  let tagged : List (Nat × Nat × List Sec) := (phases.mapIdx fun i (o, ts) => ts.map fun secs => (i, o, secs)).flatten
+  let tasksOf (o : Nat) : List (Nat × List Sec) := (tagged.filter fun x => x.2.1 == o).map fun x => (x.1, x.2.2)
+  let idsOf (i o : Nat) : List Nat := ((tasksOf o).mapIdx fun t x => (t, x.1)).filterMap fun tx => if tx.2 == i then some tx.1 else none
+  let steps (secs : List Sec) : Nat := (secs.map fun x => 2 * x.n + 8).sum + 2
+  if lock == "parallel" then
+    let tasks : List (List (List Sec)) := (List.range nown).map fun o => (tasksOf o).map (·.2)
+    let opening : List (Nat × Nat) := ((List.range nown).map fun o => [(o, 0), (o, 0)]).flatten
+    let sched : List (Nat × Nat) := opening ++ (phases.mapIdx fun i (o, ts) =>
+      let ids := idsOf i o
+      let rounds := (ts.map steps).sum + 2
+      (List.replicate rounds (ids.map fun t => (o, t))).flatten).flatten
+    let s0 := initX 4 2 none tasks
+    let (s, evs) := crossRun s0 sched []
+    let sentX := evs.filterMap fun e => match e with | .send _ _ c => some c | _ => none
+    pure (joinSp (sentX.map toString) ++ s!" | keeps={cur s.file.data s.off}" ++ (if checkX xchk0 evs then "" else " bad"))
+  else
+    let tasks : List (List Sec) := (tasksOf 0).map (·.2)
+    let sched : List Nat := (phases.mapIdx fun i (_, ts) =>
+      let ids := idsOf i 0
+      let rounds := (ts.map steps).sum + 2
+      (List.replicate rounds ids).flatten).flatten
+    let evs := run (init tasks) sched
+    let s := after (init tasks) sched
+    pure (joinSp ((sent evs).map toString) ++ s!" | keeps={s.counter}" ++ (if check chk0 evs then "" else " bad"))
 
 /-- one terminal of a `retry` case: tasks with their operations (exchanges each), `fails` attempts that failed
 before sending — charged to the first operation of the first task (by `retries_total` the counters do not depend
@@ -87,7 +142,7 @@ def retryTerm (j : Json) : Option String := do
   let ops : List (List Op) := tasks.mapIdx fun t ns => ns.mapIdx fun i n =>
     ({ n := n, fails := if t == 0 && i == 0 then List.replicate fails 0 else [] } : Op)
   let secs := ops.map opSections
-  let steps := (secs.map fun ss => (ss.map (· * 2 + 2)).sum).sum
+  let steps := (secs.map fun ss => (ss.map fun x => x.n * 2 + 2).sum).sum
   let sched := (List.replicate (steps + 1) (List.range secs.length)).flatten
   let evs := run (init secs) sched
   pure (joinSp ((sent evs).map toString) ++ (if check chk0 evs then "" else " bad"))
@@ -100,7 +155,7 @@ def step' (j : Json) : Option String := do
     let n ← fNat j "n"
     pure (joinSp ((counters c0 n).map toString))
   | "inproc" =>
-    let tasks ← (← fArr j "tasks").mapM natList
+    let tasks ← (← fArr j "tasks").mapM secList
     let sched ← (← fArr j "sched").mapM natList
     pure (inproc tasks sched)
   | "cross" =>
@@ -110,12 +165,13 @@ def step' (j : Json) : Option String := do
       | some .null => pure none
       | some f => (natList f).map some
       | none => none
-    let tasks ← (← fArr j "tasks").mapM fun p => do (← jArr p).mapM natList
+    let tasks ← (← fArr j "tasks").mapM fun p => do (← jArr p).mapM secList
     let sched ← (← fArr j "sched").mapM fun e => do
       match ← natList e with
       | [p, t] => pure (p, t)
       | _ => none
     pure (cross size off file tasks sched)
+  | "hist" => hist j
   | "retry" =>
     let ts ← (← fArr j "terms").mapM retryTerm
     pure (" || ".intercalate ts)
